@@ -151,6 +151,8 @@ def broken_obligations(ctx: Ctx) -> list[dict]:
 
 def run_check(prop: str, tier: str, seed: int) -> int:
     ctx = Ctx(prop, tier, seed)
+    for old in (OUT / prop).glob("replay-*.json") if (OUT / prop).exists() else []:
+        old.unlink()
     os.environ["PYTHONHASHSEED"] = "0"
     from . import parts as _parts
     import pkgutil
